@@ -292,7 +292,7 @@ fn trace_case(cfg: &Cfg, cursors: &[Cursor], input: &str, out: &mut String) {
     out.push_str(&sink.lock().unwrap());
     // the wrapper's decisions, in the order reconstruct_solution applied them, with the phase markers
     for l in wlog.lines() {
-        if l.starts_with("WD ") || l.starts_with("WPHASE ") || l.starts_with("WL ") {
+        if l.starts_with("WD ") || l.starts_with("WPHASE ") || l.starts_with("WL ") || l.starts_with("WS ") {
             writeln!(out, "{}", l).unwrap();
         }
     }
